@@ -1371,6 +1371,135 @@ pub fn hint_block(rng: &mut Prng, budget: usize) -> Vec<(Value, Vec<Value>, Vec<
     out
 }
 
+// ------------------------------------------------------------------------------------------------
+// sub-second bounds: the one place where the model is coarser than the code
+// ------------------------------------------------------------------------------------------------
+// The model's instants are whole seconds; a bound `t + f` (0 < f < 1 s) is given to it as `t + 1`, which is exact for
+// MATCHING (requests carry whole seconds).  But `t + f` and `t + 1` (or `t + f'`) are DIFFERENT conditions in the code
+// – different condition groups of the date-time matcher, visible in the shape of the explain trace – and ONE condition
+// in the model.  A case containing two such bounds is outside the domain of the correspondence: the generators repair
+// it (`fix_frac`: the later bound is written like the earlier one), `run` rejects it (`frac_collision`).
+
+fn bounds_of<'a>(rules: &'a [Value], k: &str) -> Vec<&'a Value> {
+    let mut out = Vec::new();
+    for r in rules {
+        if let Some(ws) = r.get(k).and_then(|m| m.as_array()) {
+            for w in ws {
+                if let Some(bs) = w.as_array() {
+                    out.extend(bs.iter());
+                }
+            }
+        }
+    }
+    out
+}
+
+/// two bounds of the same kind that are one value for the model (`t + (ns > 0)`) and two for the code (`t`, `ns`)
+pub fn frac_collision(rules: &[Value]) -> bool {
+    for k in ["datetime", "time"] {
+        let mut seen: std::collections::HashMap<u64, (u64, u64)> = std::collections::HashMap::new();
+        for b in bounds_of(rules, k) {
+            if let Some((t, _, ns)) = bound_parts(b) {
+                let v = t + (ns > 0) as u64;
+                match seen.get(&v) {
+                    Some(&(t0, ns0)) if (t0, ns0) != (t, ns) => return true,
+                    _ => {
+                        seen.insert(v, (t, ns));
+                    }
+                }
+            }
+        }
+    }
+    false
+}
+
+/// Rewrites every bound that collides (see above) with an earlier one into the earlier one's `t` / `ns`.
+pub fn fix_frac(rules: &mut [Value]) {
+    for k in ["datetime", "time"] {
+        let mut seen: std::collections::HashMap<u64, (u64, u64)> = std::collections::HashMap::new();
+        for r in rules.iter_mut() {
+            if let Some(ws) = r.get_mut(k).and_then(|m| m.as_array_mut()) {
+                for w in ws {
+                    if let Some(bs) = w.as_array_mut() {
+                        for b in bs {
+                            if let Some((t, _, ns)) = bound_parts(b) {
+                                let v = t + (ns > 0) as u64;
+                                match seen.get(&v) {
+                                    Some(&(t0, ns0)) if (t0, ns0) != (t, ns) => {
+                                        // keep the way it is written (zone, Z, HH:MM) where that stays legal
+                                        let mut o = match b {
+                                            Value::Object(o) => o.clone(),
+                                            _ => serde_json::Map::new(),
+                                        };
+                                        o.insert("t".into(), json!(t0));
+                                        if ns0 > 0 {
+                                            o.insert("ns".into(), json!(ns0));
+                                            o.remove("hm");
+                                        } else {
+                                            o.remove("ns");
+                                        }
+                                        if o.get("hm").and_then(|x| x.as_bool()) == Some(true) && t0 % 60 != 0 {
+                                            o.remove("hm");
+                                        }
+                                        *b = Value::Object(o);
+                                    }
+                                    _ => {
+                                        seen.insert(v, (t, ns));
+                                    }
+                                }
+                            }
+                        }
+                    }
+                }
+            }
+        }
+    }
+}
+
+/// `fix_frac` on the rule list of a case (`"rules"` of c01 / c17, `"pool"` of c02).
+pub fn fix_case(case: &mut Value) {
+    for k in ["rules", "pool"] {
+        if let Some(rs) = case.get_mut(k).and_then(|r| r.as_array_mut()) {
+            fix_frac(rs);
+        }
+    }
+}
+
+/// The always-on "many rules, mapped clients" family: 150-180 rules of the usual grammar, two thirds of them with ip
+/// ranges (v4 and v6 networks, the v4-mapped block, non-networks), and requests whose client address is a v4-mapped
+/// v6 address of a listed v4 network, a plain v4 / v6 address of a listed network, or one of the usual clients.
+pub fn big_mapped_case(rng: &mut Prng) -> (Value, Vec<Value>, Vec<Value>) {
+    let n = rng.range(150, 180);
+    let mut rules = gen_rules(rng, n, "r");
+    for r in rules.iter_mut() {
+        if rng.chance(2, 3) {
+            let k = rng.range(1, 3);
+            r["ips"] = Value::Array((0..k).map(|_| gen_cidr(rng)).collect());
+        }
+    }
+    let mut reqs = Vec::new();
+    for _ in 0..6 {
+        let mut q = gen_request(rng, &rules);
+        let with_ips: Vec<&Value> = rules.iter().filter(|r| r.get("ips").and_then(|i| i.as_array()).map(|a| !a.is_empty()).unwrap_or(false)).collect();
+        if !with_ips.is_empty() && rng.chance(3, 4) {
+            let r = *rng.pick(&with_ips);
+            let cs = r["ips"].as_array().unwrap();
+            let c = &cs[rng.below(cs.len())];
+            let mut ip: Vec<u64> = c["ip"].as_array().unwrap().iter().map(|x| x.as_u64().unwrap()).collect();
+            if rng.chance(1, 2) {
+                let last = ip.len() - 1;
+                ip[last] = (ip[last] + 1) % 256;
+            }
+            if ip.len() == 4 && rng.chance(2, 3) {
+                ip = v4_mapped(&ip);
+            }
+            q["ip"] = json!(ip);
+        }
+        reqs.push(q);
+    }
+    (gen_cfg(rng), rules, reqs)
+}
+
 pub fn sorted_ids(routes: &[std::sync::Arc<redirectionio::router::Route<Rule>>]) -> Vec<String> {
     let mut ids: Vec<String> = routes.iter().map(|r| r.id().to_string()).collect();
     ids.sort();
